@@ -89,7 +89,10 @@ def generate(rng, tier):
     if last.end - last.data_pos > 1 and not spec['segments'][-1].get('short_last') and rng.random() < 0.12:
         cut = rng.randint(last.data_pos + 1, last.end - 1)      # truncated final chunk: len() must still agree
     return {'spec': spec, 'raw_ts': rng.random() < 0.2, 'op_seed': rng.getrandbits(32), 'memmap': rng.random() < 0.2,
-            'cut': cut}
+            'cut': cut,
+            # after a first round of reads the caller edits the (public, mutable) properties dict of every channel in a way
+            # that concerns scaling; whatever the library makes of that, dtype and len must go on describing what reads return
+            'edit': rng.choice([None] * 8 + ['status', 'linear'])}
 
 
 def same_dtype(dt, declared):
@@ -129,7 +132,7 @@ def judge(res, out, label, value, declared, scalar=False):
 def monitor(tf, w, mode, raw_ts, rng, res):
     out = []
     file_chunks = []
-    if mode == 'lazy':
+    if mode.startswith('lazy'):
         try:
             for chunk in tf.data_chunks():
                 file_chunks.append(chunk)
@@ -173,7 +176,7 @@ def monitor(tf, w, mode, raw_ts, rng, res):
         attempt('[:]', lambda: c[:], full=True)
         attempt('read_data()', lambda: c.read_data(), full=True)
         attempt('[...]', lambda: c[...], full=True)
-        if mode == 'eager':
+        if mode.startswith('eager'):
             attempt('.data', lambda: c.data, full=True)
         for _ in range(3):
             off = rng.randint(0, n + 1)
@@ -192,7 +195,7 @@ def monitor(tf, w, mode, raw_ts, rng, res):
                 for v in c:
                     return v
             attempt('iteration element', first_iter, scalar=True)
-        if mode == 'lazy':
+        if mode.startswith('lazy'):
             try:
                 total = 0
                 for k, ck in enumerate(c.data_chunks()):
@@ -217,7 +220,7 @@ def monitor(tf, w, mode, raw_ts, rng, res):
                 out.append(V('C14.length', '%s: iteration yields %d values, len(channel) is %d' % (lab, cnt, n), path='iteration'))
         except Exception:
             res.skipped_ops += 1
-        if mode == 'lazy':
+        if mode.startswith('lazy'):
             g, cn = w.names[path]
             for k, chunk in enumerate(file_chunks[:6]):
                 try:
@@ -266,6 +269,22 @@ def execute(case):
         try:
             res.violations += monitor(eager, w, 'eager', case['raw_ts'], random.Random(case['op_seed']), res)
             res.violations += monitor(lazy, w, 'lazy', case['raw_ts'], random.Random(case['op_seed'] + 1), res)
+            if case.get('edit') and not res.violations:
+                res.probe('caller-edited-properties')
+                for tf in (eager, lazy):
+                    for g in tf.groups():
+                        for c in g.channels():
+                            if case['edit'] == 'status':
+                                c.properties['NI_Scaling_Status'] = 'scaled'
+                            else:
+                                c.properties.update({'NI_Number_Of_Scales': 1, 'NI_Scale[0]_Scale_Type': 'Linear',
+                                                     'NI_Scale[0]_Linear_Slope': 2.0, 'NI_Scale[0]_Linear_Y_Intercept': 1.0,
+                                                     'NI_Scale[0]_Linear_Input_Source': 0xFFFFFFFF})
+                                c.properties.pop('NI_Scaling_Status', None)
+                res.violations += monitor(eager, w, 'eager (after the caller edited channel properties)', case['raw_ts'],
+                                          random.Random(case['op_seed'] + 2), res)
+                res.violations += monitor(lazy, w, 'lazy (after the caller edited channel properties)', case['raw_ts'],
+                                          random.Random(case['op_seed'] + 3), res)
         finally:
             lazy.close()
     res.steps = res.compared
@@ -278,6 +297,10 @@ def shrink_candidates(case):
     if case['raw_ts']:
         c = dict(case)
         c['raw_ts'] = False
+        yield c
+    if case.get('edit'):
+        c = dict(case)
+        c['edit'] = None
         yield c
     for sp in spec_candidates(case['spec']):
         c = dict(case)
